@@ -376,6 +376,29 @@ func genC06(e *emitter, r *rng, tier string) {
 				if b.finiteWork(h) && b.cheapStart(h) {
 					b.add("pr:%d:r%d~%d:-", h, r.pick([]int{0, 5, 99, 100}), r.pick([]int{1, 50, 101, 150, 320}))
 				}
+			case 6:
+				// an EMPTY view whose start lies far beyond its end: nothing can be delivered, so
+				// nothing beyond the end may be asked about, whatever the traversal method
+				en := r.pick([]int{0, 1, 10, 100})
+				stt := r.pick([]int{1500, 3000, 4500})
+				h0 := len(b.handles)
+				if r.coin(50) {
+					b.add("we:0:%d", en)
+					b.handles = append(b.handles, hinfo{0, en})
+					b.add("ws:%d:%d", h0, stt)
+				} else {
+					b.add("ws:0:%d", stt)
+					b.handles = append(b.handles, hinfo{stt, maxInt})
+					b.add("we:%d:%d", h0, en)
+				}
+				b.handles = append(b.handles, hinfo{stt, en})
+				b.add("%s:%d:5", r.pickS([]string{"fwd", "fwd2", "back", "astr", "ffn"}), h0+1)
+				if strings.HasPrefix(b.stmts[len(b.stmts)-1], "astr") {
+					b.stmts[len(b.stmts)-1] = fmt.Sprintf("astr:%d", h0+1)
+				}
+				if strings.HasPrefix(b.stmts[len(b.stmts)-1], "ffn") {
+					b.stmts[len(b.stmts)-1] = fmt.Sprintf("ffn:%d:1_2:3", h0+1)
+				}
 			case 5:
 				// v3: creating iterators / matchers / stored sequences consults nothing
 				h := b.pickHandle()
